@@ -20,9 +20,9 @@ func H_C19_standalone() {
 	vals := make([]string, calls)
 	for k := range vals {
 		vals[k] = vxrt.Text("value", vxrt.Len("value-len", 0, n))
-		vxrt.Assume(plainText(vals[k])) // formatted text of the string is the string; CR is allowed
+		vxrt.Assume(vxPlainText(vals[k])) // formatted text of the string is the string; CR is allowed
 	}
-	t1 := newT("TestS/sub")
+	t1 := vxNewT("TestS/sub")
 	for k := range vals {
 		c.MatchStandaloneSnapshot(t1, vals[k])
 	}
@@ -30,19 +30,21 @@ func H_C19_standalone() {
 	vxrt.Assert(len(t1.errors) == 0 && len(t1.logs) == calls, "C19:record")
 	for k := range vals {
 		p := dir + "/TestS_sub_" + strconv.Itoa(k+1) + ".snap"
-		vxrt.Assert(vxrt.Eq(readFile(p), vals[k]), "C19:file-k-is-exactly-value-k")
+		vxrt.Assert(vxrt.Eq(vxReadFile(p), vals[k]), "C19:file-k-is-exactly-value-k")
 	}
-	ents, _ := osReadDirNames(dir)
+	ents, _ := vxOsReadDirNames(dir)
 	vxrt.Assert(len(ents) == calls, "C19:one-file-per-call")
-	// second execution (-count): same mapping, passes, writes nothing
+	// second and third execution (-count): same mapping, passes, writes nothing
 	stamp := vxrt.FSStamp()
-	t2 := newT("TestS/sub")
-	for k := range vals {
-		c.MatchStandaloneSnapshot(t2, vals[k])
+	for round := 0; round < 2; round++ {
+		t2 := vxNewT("TestS/sub")
+		for k := range vals {
+			c.MatchStandaloneSnapshot(t2, vals[k])
+		}
+		t2.end()
+		vxrt.Assert(len(t2.errors) == 0 && len(t2.logs) == 0, "C19:replay-passes")
+		vxrt.Assert(vxrt.FSStamp() == stamp, "C19:replay-writes-nothing")
 	}
-	t2.end()
-	vxrt.Assert(len(t2.errors) == 0 && len(t2.logs) == 0, "C19:replay-passes")
-	vxrt.Assert(vxrt.FSStamp() == stamp, "C19:replay-writes-nothing")
 }
 
 // H_C19_json: a standalone JSON file is the canonical pretty JSON, valid, with
@@ -51,21 +53,21 @@ func H_C19_json() {
 	vxrt.CI(false)
 	dir := vxrt.Dir()
 	c := WithConfig(Dir(dir))
-	doc := jsonTemplate("doc", vxrt.Param("n", 2))
-	t1 := newT("TestJ")
+	doc := vxJsonTemplate("doc", vxrt.Param("n", 2))
+	t1 := vxNewT("TestJ")
 	c.MatchStandaloneJSON(t1, doc)
 	t1.end()
 	vxrt.Assert(len(t1.errors) == 0 && len(t1.logs) == 1, "C19:json-record")
-	got := readFile(dir + "/TestJ_1.snap.json")
+	got := vxReadFile(dir + "/TestJ_1.snap.json")
 	// the canonical form: tidwall/pretty with sorted keys and one-space indent, final newline trimmed
 	want := string(pretty.PrettyOptions([]byte(doc), &pretty.Options{SortKeys: true, Indent: " "}))
 	if len(want) > 0 && want[len(want)-1] == '\n' {
 		want = want[:len(want)-1]
 	}
 	vxrt.Assert(vxrt.Eq(got, want), "C19:json-file-is-pretty-json")
-	vxrt.Assert(validJSONString(got), "C19:json-file-is-valid-json")
+	vxrt.Assert(vxValidJSONString(got), "C19:json-file-is-valid-json")
 	vxrt.Assert(len(got) > 0 && got[len(got)-1] != '\n', "C19:json-no-added-newline")
-	t2 := newT("TestJ")
+	t2 := vxNewT("TestJ")
 	stamp := vxrt.FSStamp()
 	c.MatchStandaloneJSON(t2, doc)
 	t2.end()
@@ -86,7 +88,7 @@ func H_C19_mixed() {
 		apis[k] = vxrt.Choice("api", 2)
 		cfs[k] = vxrt.Choice("config", 3)
 	}
-	run := func(t *mockT, record bool) {
+	run := func(t *vxMockT, record bool) {
 		counts := map[string]int{}
 		for k := 0; k < calls; k++ {
 			base, ext := "TestM", ""
@@ -108,18 +110,18 @@ func H_C19_mixed() {
 				cfgs[cfs[k]].MatchStandaloneJSON(t, val)
 			}
 			if record {
-				vxrt.Assert(readFile(p) == val, "C19:call-k-of-a-location-is-file-k")
+				vxrt.Assert(vxReadFile(p) == val, "C19:call-k-of-a-location-is-file-k")
 			}
 		}
 	}
-	t1 := newT("TestM")
+	t1 := vxNewT("TestM")
 	run(t1, true)
 	t1.end()
 	vxrt.Assert(len(t1.errors) == 0 && len(t1.logs) == calls, "C19:mixed-record")
-	ents, _ := osReadDirNames(dir)
+	ents, _ := vxOsReadDirNames(dir)
 	vxrt.Assert(len(ents) == calls, "C19:one-file-per-call")
 	stamp := vxrt.FSStamp()
-	t2 := newT("TestM")
+	t2 := vxNewT("TestM")
 	run(t2, false)
 	t2.end()
 	vxrt.Assert(len(t2.errors) == 0 && len(t2.logs) == 0 && vxrt.FSStamp() == stamp, "C19:mixed-replay-passes")
